@@ -295,3 +295,28 @@ V('ut-denorm-not-idempotent', UT, '        return "-LRB-"', '        return "<LR
 V('ut-denorm-chain', UT, '    word = word.replace(">", "-RAB-")', '    word = word.replace(">", "-RAB>")', ['C08'])
 V('pa-silent-local-names', PA, "            cat = node.cat\n            word = denormalize(node.word)\n            pos = node.token.get('pos', 'POS')\n            return f'(<L {cat} {pos} {pos} {word} {cat}>)'",
   "            c = node.cat\n            w = denormalize(node.word)\n            tag = node.token.get('pos', 'POS')\n            return f'(<L {c} {tag} {tag} {w} {c}>)'", ['C08'], expect='silent')
+
+# ---------------------------------------------------------------- C20
+JRD = 'depccg/tools/ja/reader.py'
+PTBF = 'depccg/printer/ptb.py'
+PJAF = 'depccg/printer/ja.py'
+V('jr-symbol-keeps-brace', JRD, "op_string = self.next(' ')[1:]", "op_string = self.next(' ')", ['C20'])
+V('jr-find-unguarded', JRD, "        if '_' in cat:\n            cat = cat[:cat.find('_')]", "        cat = cat[:cat.find('_')]", ['C20'])
+V('jr-vocab-lacks-bx3', JRD, "'<B4', '>Bx1', '>Bx2', '>Bx3',", "'<B4', '>Bx1', '>Bx2',", ['C20'])
+V('jr-vocab-lacks-adv1', JRD, "'ADNext', 'ADNint', 'ADV0', 'ADV1', 'ADV2'", "'ADNext', 'ADNint', 'ADV0', 'ADV2'", ['C20'])
+V('jr-children-swapped', JRD, "return Tree.make_binary(cat, left, right, op_string, op_string)", "return Tree.make_binary(cat, right, left, op_string, op_string)", ['C20'])
+V('jr-word-from-base', JRD, "return Tree.make_terminal(surf, cat)", "return Tree.make_terminal(pos1, cat)", ['C20'])
+V('jr-unary-default-label', JRD, "return Tree.make_unary(cat, children[0], op_string, op_string)", "return Tree.make_unary(cat, children[0])", ['C20'])
+V('pja-symbol-from-string', PJAF, "return f'{{{node.op_symbol} {node.cat} {children}}}'", "return f'{{{node.op_string} {node.cat} {children}}}'", ['C20'])
+V('pja-leaf-three-fields', PJAF, "return f'{{{cat} {word}/{word}/{pos}/{inflection}}}'", "return f'{{{cat} {word}/{pos}/{inflection}}}'", ['C20'])
+V('ptb-no-escape', PTBF, "word = node.word.replace('(', '-LRB-').replace(')', '-RRB-')", "word = node.word", ['C20'])
+V('ptb-escape-half', PTBF, "word = node.word.replace('(', '-LRB-').replace(')', '-RRB-')", "word = node.word.replace('(', '-LRB-')", ['C20'])
+V('ptb-escape-with-bracket', PTBF, "word = node.word.replace('(', '-LRB-').replace(')', '-RRB-')", "word = node.word.replace('(', '-(LRB-').replace(')', '-RRB-')", ['C20'])
+V('rd-ptb-no-unescape', RD, "            item = item.replace('-LRB-', '(').replace('-RRB-', ')')\n", "", ['C20'])
+V('rd-ptb-unescape-swapped', RD, "item = item.replace('-LRB-', '(').replace('-RRB-', ')')", "item = item.replace('-LRB-', ')').replace('-RRB-', '(')", ['C20'])
+V('rd-ptb-no-completeness', RD, "        assert len(stack) == 1 and isinstance(stack[0], Tree)\n", "", ['C20'])
+V('rd-ptb-root-prefix', RD, "assert tree_string.startswith('(ROOT ')\n    buf = list(reversed(tree_string[6:-1].split(' ')))", "assert tree_string.startswith('(ROOT ')\n    buf = list(reversed(tree_string[5:-1].split(' ')))", ['C20'])
+V('ptb-root-renamed', PTBF, "return f'(ROOT {rec(tree)})'", "return f'(TOP {rec(tree)})'", ['C20'])
+V('rd-ptb-unary-args', RD, "tree = Tree.make_unary(category, children[0])", "tree = Tree.make_unary(category, children[0], 'lex', '<un>', True)", ['C20'])
+V('rd-ptb-children-order', RD, "                right, left = children\n", "                left, right = children\n", ['C20'])
+V('jr-silent-contains-guard', JRD, "        if '_' in cat:\n            cat = cat[:cat.find('_')]", "        cut = cat.find('_')\n        if cut != -1:\n            cat = cat[:cut]", ['C20'], expect='silent')
